@@ -182,7 +182,8 @@ def real_process_runs(chk, prop, n):
         tids = []
         big = rng.choice([300_000, 70_000])
         for k in range(cores + 2):
-            script = ("echo start > %s/s%d; head -c %d /dev/zero | tr '\\0' 'x'; head -c 1000 /dev/zero | tr '\\0' 'e' 1>&2; "
+            # output is arbitrary bytes (0xF8 is not valid UTF-8): the log files must hold exactly what was produced
+            script = ("echo start > %s/s%d; head -c %d /dev/zero | tr '\\0' '\\370'; head -c 1000 /dev/zero | tr '\\0' '\\351' 1>&2; "
                       "sleep 0.15; echo end > %s/e%d") % (marks, k, big, marks, k)
             tids.append(await s.enqueue_task("t%d" % k, script, wd, None, []))
         # a task that spawns a child and is cancelled; one that times out.  The children wait for a GO file
@@ -216,7 +217,7 @@ def real_process_runs(chk, prop, n):
             try:
                 so = open(os.path.join(wd, ".gwf", "logs", "t%d.stdout" % k), "rb").read()
                 se = open(os.path.join(wd, ".gwf", "logs", "t%d.stderr" % k), "rb").read()
-                res["logs"].append(len(so) == big and len(se) == 1000)
+                res["logs"].append(so == b"\xf8" * big and se == b"\xe9" * 1000)
             except OSError:
                 res["logs"].append(False)
         return res
